@@ -101,6 +101,9 @@ func (w *World) genFunc(ctr *FuncContract) (rep *FuncReport) {
 	for _, fv := range fn.FreeVars {
 		v := e.havocVal(fv.Type(), "free_"+fv.Name())
 		e.argFacts(entry, v)
+		if isRefLike(fv.Type()) {
+			e.assume(Not(Eq(v.Term, "0")), "captured variables live in allocated cells")
+		}
 		binds = append(binds, v)
 	}
 	e.rootArgs = args
@@ -162,6 +165,29 @@ func (w *World) genFunc(ctr *FuncContract) (rep *FuncReport) {
 		for i, gi := range e.allGlobalInvs(e.rootEntry, rr.state) {
 			e.curPos = fn.Pos()
 			e.oblige("ginv", fmt.Sprintf("exit%d", i+1), gi.cl.Props, rr.reach, gi.term, "package invariant re-established on exit: "+gi.cl.Text, "global-invariant "+gi.cl.Text)
+		}
+		if ctr.OMWrites != nil {
+			allowed := map[string]bool{}
+			for _, g := range ctr.OMWrites.Groups {
+				for _, c := range omGroups[g] {
+					allowed[c] = true
+				}
+			}
+			for _, c := range append([]string{}, e.compOrder...) {
+				isObj := strings.HasPrefix(c, "OM_") || (strings.HasPrefix(c, "H_") && strings.HasSuffix(c, "unstructured_Unstructured"))
+				if !isObj || allowed[c] || (strings.HasPrefix(c, "H_") && allowed["content"]) {
+					continue
+				}
+				old := e.comp(e.rootEntry, c, e.compSort[c])
+				cur := e.comp(rr.state, c, e.compSort[c])
+				if old == cur {
+					continue
+				}
+				e.curPos = fn.Pos()
+				sk := e.fresh("skobj", "Int")
+				e.oblige("frame", "om."+strings.TrimPrefix(c, "OM_"), ctr.OMWrites.Props, And(rr.reach, app("<=", sk, e.compInit[allocComp])), Eq(Select(cur, sk), Select(old, sk)),
+					"object field group "+c+" of a pre-existing object changed; only "+ctr.OMWrites.Text+" may change", "om-writes "+ctr.OMWrites.Text)
+			}
 		}
 		if len(ctr.Ensures) > 0 {
 			e.cover("return", ctr.AllProps, rr.reach, "the function can return")
@@ -299,11 +325,23 @@ func (e *Exec) script(o *Obligation, withModel bool, focused bool) string {
 			defIdx[it.Sym] = i
 		}
 	}
+	// for relevance, an assumption that mentions a named quantified formula Q!n counts as mentioning what Q is about
+	relSyms := func(it *Item) []string {
+		out := it.syms
+		for _, s := range it.syms {
+			if strings.HasPrefix(s, "Q!") {
+				if di, ok := defIdx[s]; ok {
+					out = append(append([]string{}, out...), items[di].syms...)
+				}
+			}
+		}
+		return out
+	}
 	hub := map[string]bool{}
 	if focused {
 		freq := map[string]int{}
 		for _, it := range items {
-			if it.Kind != ItemAssume {
+			if it.Kind != ItemAssume || it.Key != "" {
 				continue
 			}
 			seen := map[string]bool{}
@@ -357,7 +395,7 @@ func (e *Exec) script(o *Obligation, withModel bool, focused bool) string {
 			if focused && it.Key != "" {
 				hit = needed[it.Key]
 			} else {
-				for _, s := range it.syms {
+				for _, s := range relSyms(&items[i]) {
 					if needed[s] && !hub[s] {
 						hit = true
 						break
@@ -411,57 +449,69 @@ func solveAll(dir string, reps []*FuncReport, filter func(*Obligation) bool, tim
 		}
 	}
 	results := make([]*OblResult, len(jobs))
-	sem := make(chan struct{}, 10)
+	solveOne := func(j job, timeoutS int, focusedS int) *OblResult {
+		// tier 1: focused slice (proving only); tier 2: the full context
+		var script string
+		var res SolverResult
+		if !j.o.ExpectSat {
+			script = j.e.script(j.o, false, true)
+			res = runSolvers(dir, j.o.Name+".f", script, focusedS, false, false)
+		}
+		if res.Verdict != "unsat" {
+			script = j.e.script(j.o, false, false)
+			to := timeoutS
+			if j.o.ExpectSat {
+				to = min(timeoutS, 3)
+			}
+			res = runSolvers(dir, j.o.Name, script, to, all && !j.o.ExpectSat, false)
+		} else {
+			res.Solver += "(focused)"
+		}
+		or := &OblResult{O: j.o, Script: script, Res: res}
+		switch {
+		case j.o.ExpectSat && res.Verdict == "sat":
+			or.Status = "cover-ok"
+		case j.o.ExpectSat && res.Verdict == "unsat":
+			or.Status = "cover-failed"
+		case j.o.ExpectSat:
+			or.Status = "cover-undecided"
+		case res.Verdict == "unsat":
+			or.Status = "discharged"
+		case res.Verdict == "sat":
+			or.Status = "failed"
+			// get a model from z3
+			ms := j.e.script(j.o, true, false)
+			mres := runSolvers(dir, j.o.Name+".model", ms, timeoutS, false, true)
+			if mres.Verdict == "sat" {
+				or.Res.Output = mres.Output
+			}
+		case res.Verdict == "disagree":
+			or.Status = "disagree"
+		default:
+			or.Status = "undecided"
+		}
+		return or
+	}
+	sem := make(chan struct{}, 5)
 	done := make(chan int, len(jobs))
 	for i, j := range jobs {
 		go func(i int, j job) {
 			sem <- struct{}{}
 			defer func() { <-sem; done <- i }()
-			// tier 1: focused slice (proving only); tier 2: the full context
-			var script string
-			var res SolverResult
-			if !j.o.ExpectSat {
-				script = j.e.script(j.o, false, true)
-				res = runSolvers(dir, j.o.Name+".f", script, min(timeoutS, 4), false, false)
-			}
-			if res.Verdict != "unsat" {
-				script = j.e.script(j.o, false, false)
-				to := timeoutS
-				if j.o.ExpectSat {
-					to = min(timeoutS, 3)
-				}
-				res = runSolvers(dir, j.o.Name, script, to, all && !j.o.ExpectSat, false)
-			} else {
-				res.Solver += "(focused)"
-			}
-			or := &OblResult{O: j.o, Script: script, Res: res}
-			switch {
-			case j.o.ExpectSat && res.Verdict == "sat":
-				or.Status = "cover-ok"
-			case j.o.ExpectSat && res.Verdict == "unsat":
-				or.Status = "cover-failed"
-			case j.o.ExpectSat:
-				or.Status = "cover-undecided"
-			case res.Verdict == "unsat":
-				or.Status = "discharged"
-			case res.Verdict == "sat":
-				or.Status = "failed"
-				// get a model from z3
-				ms := j.e.script(j.o, true, false)
-				mres := runSolvers(dir, j.o.Name+".model", ms, timeoutS, false, true)
-				if mres.Verdict == "sat" {
-					or.Res.Output = mres.Output
-				}
-			case res.Verdict == "disagree":
-				or.Status = "disagree"
-			default:
-				or.Status = "undecided"
-			}
-			results[i] = or
+			results[i] = solveOne(j, timeoutS, min(timeoutS, 4))
 		}(i, j)
 	}
 	for range jobs {
 		<-done
+	}
+	// second chance, one at a time on an idle machine, for obligations that ran out of time under load
+	for i, r := range results {
+		if r.Status == "undecided" && (r.Res.Verdict == "timeout" || r.Res.Verdict == "unknown") {
+			results[i] = solveOne(jobs[i], 3*timeoutS, 2*timeoutS)
+			if results[i].Status == "discharged" {
+				results[i].Res.Solver += "(2nd)"
+			}
+		}
 	}
 	sort.Slice(results, func(a, b int) bool { return results[a].O.Name < results[b].O.Name })
 	return results
@@ -494,8 +544,22 @@ func (e *Exec) allGlobalInvs(old, cur *State) []ginvInst {
 
 // writeTargetRef: the heap reference standing for a write target (object, map or slice base).
 func (e *Exec) writeTargetRef(v Val) Term {
+	if v.Addr != nil {
+		return v.Addr.Ref
+	}
 	if _, ok := unalias(v.T).Underlying().(*types.Slice); ok {
 		return app("s_base", v.Term)
 	}
 	return e.refOfVal(v)
+}
+
+var omGroups = map[string][]string{
+	"owners":          {"OM_owners_arr", "OM_owners_len", "OM_ctrl_has", "OM_ctrl_uid"},
+	"labels":          {"OM_labels_d", "OM_labels_v", "OM_labels_n"},
+	"annotations":     {"OM_annotations_d", "OM_annotations_v", "OM_annotations_n"},
+	"finalizers":      {"OM_finset", "OM_fins_arr", "OM_fins_len"},
+	"status":          {"OM_status", "OM_status_has"},
+	"resourceVersion": {"OM_resourceVersion"},
+	"namespace":       {"OM_namespace"},
+	"content":         {"content"},
 }
